@@ -128,6 +128,15 @@ impl<'ast> Visit<'ast> for BodyVisitor {
                 }));
             }
         }
+        if e.args.len() == 1 {
+            if let syn::Expr::Path(pa) = &e.args[0] {
+                self.nodes.push(json!({
+                    "kind": "path_call", "method": e.method.to_string(), "range": rng(e.span()),
+                    "receiver": rng(e.receiver.span()), "path": rng(pa.span()),
+                    "segments": pa.path.segments.len(),
+                }));
+            }
+        }
         visit::visit_expr_method_call(self, e);
     }
     fn visit_expr_closure(&mut self, c: &'ast syn::ExprClosure) {
